@@ -606,6 +606,21 @@ impl PMatrix {
 pub const POS: [i64; 5] = [0, 10, 26, 48, 75];
 
 /// Standard matrix: integral, asymmetric (+1 forward), triangle-respecting; distances differ from durations.
+/// The standard construction over other positions on the line (e.g. locations close enough to be clustered).
+pub fn line_matrix(profile: &str, pos: &[i64]) -> PMatrix {
+    let n = pos.len();
+    let mut durations = vec![];
+    let mut distances = vec![];
+    for i in 0..n {
+        for j in 0..n {
+            let d = (pos[i] - pos[j]).abs();
+            durations.push(if i == j { 0 } else { d + if j > i { 1 } else { 0 } });
+            distances.push(if i == j { 0 } else { 2 * d + if j < i { 3 } else { 0 } });
+        }
+    }
+    PMatrix { profile: profile.to_string(), n, durations, distances, error_codes: None, timestamp: None }
+}
+
 pub fn standard_matrix(profile: &str, n: usize) -> PMatrix {
     let mut durations = vec![];
     let mut distances = vec![];
